@@ -154,7 +154,19 @@ type Runner struct {
 	OutcomeKey             []string
 	stopped                bool
 	prevValue              proto.Message // Value: the stored message before the write being processed
+	// Observe, when set, is told about every message that crosses the API boundary: "input" (the message handed to a
+	// write, right after the call returned), "result", "read", "event-new", "event-old". It may be called from consumer goroutines.
+	Observe func(kind string, m proto.Message)
 }
+
+func (r *Runner) observe(kind string, m proto.Message) {
+	if r.Observe != nil && m != nil {
+		r.Observe(kind, m)
+	}
+}
+
+// OpenSub opens another subscription now (its seed is the current contents).
+func (r *Runner) OpenSub(spec SubSpec) { r.open(spec) }
 
 // NewRunner builds the resource, the model and opens the subscriptions (so their seeds are the initial contents).
 func NewRunner(cfg Config, subs ...SubSpec) *Runner {
@@ -253,6 +265,9 @@ func (r *Runner) open(spec SubSpec) {
 						return
 					}
 					g := GotEvent{New: e.Value, Tick: TickOf(e.ChangeTime), Seed: e.SeedValue, LastSeed: e.LastSeedValue}
+					if g.Tick != SentinelTick {
+						r.observe("event-new", e.Value)
+					}
 					sr.mu.Lock()
 					if g.Tick == SentinelTick {
 						sr.sawEnd = true
@@ -289,6 +304,10 @@ func (r *Runner) open(spec SubSpec) {
 						return
 					}
 					g := GotEvent{ID: e.Id, Kind: e.ChangeType, Old: e.OldValue, New: e.NewValue, Tick: TickOf(e.ChangeTime), Seed: e.SeedValue, LastSeed: e.LastSeedValue}
+					if g.ID != SentinelID {
+						r.observe("event-new", e.NewValue)
+						r.observe("event-old", e.OldValue)
+					}
 					sr.mu.Lock()
 					if g.ID == SentinelID {
 						sr.sawEnd = true
@@ -381,6 +400,7 @@ func (r *Runner) Do(op Op) error {
 	var found bool
 	var list []proto.Message
 	var panicked any
+	var in proto.Message
 	func() {
 		defer func() { panicked = recover() }()
 		switch op.Kind {
@@ -402,11 +422,14 @@ func (r *Runner) Do(op Op) error {
 			}
 			list = r.Col.List(ropts...)
 		case OpSet:
-			ret, err = r.Val.Set(proto.Clone(op.Val), op.WriteOptions(log)...)
+			in = proto.Clone(op.Val)
+			ret, err = r.Val.Set(in, op.WriteOptions(log)...)
 		case OpAdd:
-			ret, err = r.Col.Add(op.ID, proto.Clone(op.Val), op.WriteOptions(log)...)
+			in = proto.Clone(op.Val)
+			ret, err = r.Col.Add(op.ID, in, op.WriteOptions(log)...)
 		case OpUpdate:
-			ret, err = r.Col.Update(op.ID, proto.Clone(op.Val), op.WriteOptions(log)...)
+			in = proto.Clone(op.Val)
+			ret, err = r.Col.Update(op.ID, in, op.WriteOptions(log)...)
 		case OpDelete:
 			ret, err = r.Col.Delete(op.ID, op.WriteOptions(log)...)
 		}
@@ -414,6 +437,18 @@ func (r *Runner) Do(op Op) error {
 	c1 := r.Clock.Peek()
 	if panicked != nil {
 		return fmt.Errorf("%v panicked: %v", op, panicked)
+	}
+	if r.Observe != nil {
+		r.observe("input", in)
+		if err == nil {
+			r.observe("result", ret)
+		}
+		if op.Kind == OpGet {
+			r.observe("read", ret)
+		}
+		for _, m := range list {
+			r.observe("read", m)
+		}
 	}
 	var out Outcome
 	r.prevValue = nil
@@ -574,6 +609,7 @@ var IDAlphabet = []string{"", "a", "b", "A", "ab", " a"}
 func (r *Runner) compareState(after Op) error {
 	if r.Cfg.IsValue {
 		got := r.Val.Get()
+		r.observe("read", got)
 		out := r.Model.Get("", nil)
 		if (got != nil) != out.Found {
 			return fmt.Errorf("after %v: Value.Get()=%s, model found=%v", after, Txt(got), out.Found)
@@ -599,6 +635,7 @@ func (r *Runner) compareState(after Op) error {
 	sort.Strings(ids)
 	for _, id := range ids {
 		got, found := r.Col.Get(id)
+		r.observe("read", got)
 		out := r.Model.Get(id, nil)
 		if found != out.Found {
 			return fmt.Errorf("after %v: Get(%q) found=%v, model says %v", after, id, found, out.Found)
